@@ -48,6 +48,7 @@ type summary struct {
 	Packages        int      `json:"packages"`
 	Files           int      `json:"files"`
 	Yields          int      `json:"yields"`
+	RMWSplits       int      `json:"rmw_splits"`
 	MapRanges       int      `json:"map_ranges"`
 	MapDeletes      int      `json:"map_deletes"`
 	Locks           int      `json:"locks"`
@@ -68,6 +69,7 @@ var (
 	flagDir    = flag.String("dir", "", "root of the scratch copy of llir/llvm")
 	flagPkgs   = flag.String("pkgs", "asm,ir,internal", "comma separated top-level directories to instrument")
 	flagYields = flag.Bool("yields", true, "insert statement yields")
+	flagRMW    = flag.Bool("rmw", true, "split read-modify-write statements on shared locations (x.f = append(x.f, ...), x.n++, x.n += d) into read, yield, write")
 	flagMaps   = flag.Bool("maps", true, "rewrite map ranges")
 	flagLocks  = flag.Bool("locks", true, "rewrite mutex operations")
 	flagClock  = flag.Bool("clock", true, "rewrite clock reads")
@@ -275,6 +277,159 @@ type fileCtx struct {
 	opaque [][2]int
 	// recv2 marks the receive expressions used in two-valued form.
 	recv2 map[*ast.UnaryExpr]bool
+	// captured: local variables that a function literal uses from an enclosing
+	// function (they may be shared with a goroutine).
+	captured map[types.Object]bool
+}
+
+// findCaptured records the local variables used inside a function literal that
+// does not contain their declaration.
+func (c *fileCtx) findCaptured(f *ast.File) {
+	var lits []*ast.FuncLit
+	var visit func(n ast.Node) bool
+	visit = func(n ast.Node) bool {
+		switch n := n.(type) {
+		case *ast.FuncLit:
+			lits = append(lits, n)
+			ast.Inspect(n.Body, visit)
+			lits = lits[:len(lits)-1]
+			return false
+		case *ast.Ident:
+			if len(lits) == 0 {
+				return true
+			}
+			v, ok := c.info.Uses[n].(*types.Var)
+			if !ok || v.IsField() || v.Pkg() == nil || v.Parent() == v.Pkg().Scope() {
+				return true
+			}
+			in := lits[len(lits)-1]
+			if v.Pos() < in.Pos() || v.Pos() >= in.End() {
+				c.captured[v] = true
+			}
+		}
+		return true
+	}
+	ast.Inspect(f, visit)
+}
+
+// sharedLoc reports whether the pure expression e may denote a location that
+// other goroutines reach: a field selection or dereference, a package-level
+// variable, or a local variable captured by a function literal.
+func (c *fileCtx) sharedLoc(e ast.Expr) bool {
+	switch e := unparen(e).(type) {
+	case *ast.SelectorExpr, *ast.StarExpr:
+		return pure(e)
+	case *ast.Ident:
+		v, ok := c.info.Uses[e].(*types.Var)
+		if !ok || v.Pkg() == nil {
+			return false
+		}
+		return v.Parent() == v.Pkg().Scope() || c.captured[v]
+	}
+	return false
+}
+
+// callFree: evaluating e calls nothing, receives nothing and contains no function literal.
+func (c *fileCtx) callFree(e ast.Expr) bool {
+	ok := true
+	ast.Inspect(e, func(n ast.Node) bool {
+		switch n := n.(type) {
+		case *ast.CallExpr:
+			// conversions and len/cap are no calls
+			if tv, has := c.info.Types[n.Fun]; has && tv.IsType() {
+				return ok
+			}
+			if id, isID := n.Fun.(*ast.Ident); isID && (id.Name == "len" || id.Name == "cap") {
+				if _, isB := c.info.Uses[id].(*types.Builtin); isB {
+					return ok
+				}
+			}
+			ok = false
+		case *ast.FuncLit:
+			ok = false
+		case *ast.UnaryExpr:
+			if n.Op == token.ARROW {
+				ok = false
+			}
+		}
+		return ok
+	})
+	return ok
+}
+
+// rmw splits a read-modify-write statement on a shared location,
+//
+//	X = append(X, a...)   X++   X op= e
+//
+// into { __r := X; __simrt.YR(N); X = append(__r, a...) } etc., so that the
+// scheduler may run another task between the read and the write (a lost update
+// is then an outcome the tape can produce, with or without the race detector).
+func (c *fileCtx) rmw(s ast.Stmt) {
+	if !*flagRMW || !*flagYields {
+		return
+	}
+	switch s := s.(type) {
+	case *ast.IncDecStmt:
+		if !c.sharedLoc(s.X) {
+			return
+		}
+		id := c.newSite(s.Pos(), "rmw", c.text(s.X))
+		op := "+"
+		if s.Tok == token.DEC {
+			op = "-"
+		}
+		x := c.text(s.X)
+		c.opaque = append(c.opaque, [2]int{c.off(s.Pos()), c.off(s.End())})
+		c.edits = append(c.edits, edit{c.off(s.Pos()), c.off(s.End()), fmt.Sprintf("{ __r%d := %s; __simrt.YR(%d); %s = __r%d %s 1 }", id, x, id, x, id, op)})
+		sum.RMWSplits++
+	case *ast.AssignStmt:
+		if len(s.Lhs) != 1 || len(s.Rhs) != 1 || !c.sharedLoc(s.Lhs[0]) {
+			return
+		}
+		x := c.text(s.Lhs[0])
+		if s.Tok == token.ASSIGN {
+			call, ok := unparen(s.Rhs[0]).(*ast.CallExpr)
+			if !ok || len(call.Args) < 1 {
+				return
+			}
+			fn, ok := call.Fun.(*ast.Ident)
+			if !ok || fn.Name != "append" {
+				return
+			}
+			if _, isBuiltin := c.info.Uses[fn].(*types.Builtin); !isBuiltin {
+				return
+			}
+			if c.text(call.Args[0]) != x {
+				return
+			}
+			for _, a := range call.Args[1:] {
+				if !c.callFree(a) {
+					return
+				}
+			}
+			id := c.newSite(s.Pos(), "rmw", x)
+			rest := string(c.src[c.off(call.Args[0].End()):c.off(s.End())])
+			c.opaque = append(c.opaque, [2]int{c.off(s.Pos()), c.off(s.End())})
+			c.edits = append(c.edits, edit{c.off(s.Pos()), c.off(s.End()), fmt.Sprintf("{ __r%d := %s; __simrt.YR(%d); %s = append(__r%d%s }", id, x, id, x, id, rest)})
+			sum.RMWSplits++
+			return
+		}
+		var op string
+		switch s.Tok {
+		case token.ADD_ASSIGN, token.SUB_ASSIGN, token.MUL_ASSIGN, token.QUO_ASSIGN, token.REM_ASSIGN,
+			token.AND_ASSIGN, token.OR_ASSIGN, token.XOR_ASSIGN, token.SHL_ASSIGN, token.SHR_ASSIGN, token.AND_NOT_ASSIGN:
+			op = strings.TrimSuffix(s.Tok.String(), "=")
+		default:
+			return
+		}
+		if !c.callFree(s.Rhs[0]) {
+			return
+		}
+		id := c.newSite(s.Pos(), "rmw", x)
+		c.opaque = append(c.opaque, [2]int{c.off(s.Pos()), c.off(s.End())})
+		c.edits = append(c.edits, edit{c.off(s.Pos()), c.off(s.End()), fmt.Sprintf("{ __r%d := %s; __simrt.YR(%d); %s = __r%d %s (%s) }", id, x, id, x, id, op, c.text(s.Rhs[0]))})
+		sum.RMWSplits++
+	}
 }
 
 func (c *fileCtx) off(p token.Pos) int { return c.fset.Position(p).Offset }
@@ -282,7 +437,8 @@ func (c *fileCtx) off(p token.Pos) int { return c.fset.Position(p).Offset }
 func (c *fileCtx) text(n ast.Node) string { return string(c.src[c.off(n.Pos()):c.off(n.End())]) }
 
 func instrumentFile(fset *token.FileSet, info *types.Info, f *ast.File, src []byte, rel string) ([]byte, bool) {
-	c := &fileCtx{fset: fset, info: info, src: src, rel: rel, recv2: map[*ast.UnaryExpr]bool{}}
+	c := &fileCtx{fset: fset, info: info, src: src, rel: rel, recv2: map[*ast.UnaryExpr]bool{}, captured: map[types.Object]bool{}}
+	c.findCaptured(f)
 	for _, d := range f.Decls {
 		switch d := d.(type) {
 		case *ast.FuncDecl:
@@ -572,6 +728,7 @@ func (c *fileCtx) yields(list []ast.Stmt) {
 		o := c.off(s.Pos())
 		c.edits = append(c.edits, edit{o, o, fmt.Sprintf("__simrt.Y(%d);", id)})
 		sum.Yields++
+		c.rmw(s)
 	}
 }
 
